@@ -596,12 +596,12 @@ func c13(w *core.World, rep *core.Report) {
 		}
 		return sel
 	}
-	RunJobs(w, rep, filter(jobs))
+	RunJobs(w, rep, MarkBounded(filter(jobs)))
 
 	// decoders on arbitrary octets: paths with more entries than the bound are not explored
 	w.Cx.MaxVisits = maxNssai + 2
 	w.Cx.UnwindDrop = true
-	RunJobs(w, rep, filter([]Job{nssaiDecodedJob(w), ladnDecodedJob(w)}))
+	RunJobs(w, rep, MarkBounded(filter([]Job{nssaiDecodedJob(w), ladnDecodedJob(w)})))
 	w.Cx.UnwindDrop = false
 
 	rep.Bounded = append(rep.Bounded,
